@@ -1968,7 +1968,8 @@ class unyt_array(np.ndarray):
                         else:
                             raise UnitOperationError(ufunc, u0, u1)
                     conv, offset = u1.get_conversion_factor(u0, inp1.dtype)
-                    new_dtype = np.dtype("f" + str(inp1.dtype.itemsize))
+                    new_dtypekind = "c" if inp1.dtype.kind == "c" else "f"
+                    new_dtype = np.dtype(new_dtypekind + str(inp1.dtype.itemsize))
                     conv = new_dtype.type(conv)
                     if (
                         offset is not None
